@@ -320,8 +320,9 @@ fn gen_chains(rng: &mut Rng, tier: Tier) -> Sc {
     let branching = rng.chance(0.3);
     // distinct labels from a sparse range
     let mut labels: BTreeSet<u32> = BTreeSet::new();
+    let wide = rng.chance(0.3);
     while labels.len() < target * 2 + 40 {
-        labels.insert(rng.below(100_000) as u32);
+        labels.insert(if wide { (rng.next_u64() >> 32) as u32 | if rng.chance(0.5) { 0xFFFF_0000 } else { 0 } } else { rng.below(100_000) as u32 });
     }
     let mut labels: Vec<u32> = labels.into_iter().collect();
     rng.shuffle(&mut labels);
